@@ -387,6 +387,12 @@ def r6_lazy_derivations(ctx):
            "; ".join(bad), key="C04-R6|no-shared-overlay-writes")
 
 
+# clauses shared with sibling properties: the written bytes of a selection / a modified table are cut with the same tables
+from .c16 import r4_selection_compaction as _bam_selection      # BAM: bytes of a selection are gathered record by record, in selection order
+from .c02 import r3_fixed_layouts as _line_layouts              # record and field extents of SAM / FASTQ / FASTA (trailing '\r', record ends)
+from .c02 import r6_field_table as _field_table                 # column accessors read the start/length table without changing it
+from .c03 import r6_streams_and_text_ranges as _text_ranges     # untouched columns are supplied as file text
+
 RULES = [
     ("C04-R6", r6_lazy_derivations),
     ("C04-R1", r1_pass_through),
@@ -394,4 +400,8 @@ RULES = [
     ("C04-R3", r3_memo_coherence),
     ("C04-R4", r4_rest_of_line),
     ("C04-R5", r5_record_ranges),
+    ("C04-R7", _bam_selection),
+    ("C04-R8", _line_layouts),
+    ("C04-R9", _field_table),
+    ("C04-R10", _text_ranges),
 ]
